@@ -337,4 +337,266 @@ theorem axpy_eq (r v : List ℝ) (s : ℝ) : axpy r v s = List.zipWith (fun a b 
   funext a b
   ring
 
+/-! ### `mju_clip`, `mju_max` over ℝ -/
+
+theorem mju_clip_eq (x lo hi : ℝ) : mju_clip x lo hi = if x < lo then lo else if hi < x then hi else x := by
+  simp only [mju_clip, real_lt_iff]
+
+theorem mju_clip_mem (x lo hi : ℝ) (h : lo ≤ hi) : lo ≤ mju_clip x lo hi ∧ mju_clip x lo hi ≤ hi := by
+  rw [mju_clip_eq]
+  split_ifs with h1 h2
+  · exact ⟨le_refl _, h⟩
+  · exact ⟨h, le_refl _⟩
+  · exact ⟨not_lt.mp h1, not_lt.mp h2⟩
+
+theorem mju_clip_of_mem (x lo hi : ℝ) (h1 : lo ≤ x) (h2 : x ≤ hi) : mju_clip x lo hi = x := by
+  rw [mju_clip_eq, if_neg (not_lt.mpr h1), if_neg (not_lt.mpr h2)]
+
+theorem mju_max_eq (a b : ℝ) : mju_max a b = max a b := by
+  simp only [mju_max, real_le_iff]
+  split_ifs with h
+  · exact (max_eq_left h).symm
+  · exact (max_eq_right (le_of_lt (not_le.mp h))).symm
+
+theorem mjMINVAL_real : (RK4.mjMINVAL : ℝ) = minval := by
+  simp only [RK4.mjMINVAL]; exact ofSci_minval
+theorem mjPI_real : (RK4.mjPI : ℝ) = piLit := by
+  simp only [RK4.mjPI]; exact ofSci_pi
+
+/-! ### `mj_nextActivation` -/
+
+theorem nextActivation_mem (p : ActSlot ℝ) (h act adot : ℝ) (hl : p.actlimited = true)
+    (hd : p.dyntype ≠ RK4.mjDYN_DCMOTOR) (hr : p.lo ≤ p.hi) :
+    p.lo ≤ nextActivation p h act adot ∧ nextActivation p h act adot ≤ p.hi := by
+  simp only [nextActivation]
+  rw [if_pos ⟨hd, hl⟩]
+  exact mju_clip_mem _ _ _ hr
+
+theorem nextActivation_euler (p : ActSlot ℝ) (h act adot : ℝ) (h1 : p.dyntype ≠ RK4.mjDYN_FILTEREXACT)
+    (h2 : p.dyntype ≠ RK4.mjDYN_DCMOTOR) :
+    nextActRaw p h act adot = act + h * adot := by
+  simp only [nextActRaw, if_neg h1, if_neg h2]; ring
+
+theorem filterExact_eq (t h act u : ℝ) (ht : minval ≤ t) :
+    filterExact t h act ((u - act) / t) = act + (u - act) * (1 - Real.exp (-h / t)) := by
+  have ht0 : 0 < t := lt_of_lt_of_le minval_pos ht
+  simp only [filterExact, mju_max_eq, mjMINVAL_real, max_eq_right ht, real_ofInt, real_exp]
+  have : (u - act) / t * t = u - act := by field_simp
+  rw [this]; norm_num
+
+/-! ### `mj_advance`, `mj_RungeKutta` -/
+
+theorem axpy_length (r v : List ℝ) (s : ℝ) : (axpy r v s).length = min r.length v.length := by
+  simp [axpy]
+
+theorem foldl_axpy_length (n : ℕ) : ∀ (terms : List (List ℝ × ℝ)) (acc : List ℝ), acc.length = n →
+    (∀ t ∈ terms, t.1.length = n) →
+    (terms.foldl (fun acc t => axpy acc t.1 t.2) acc).length = n := by
+  intro terms
+  induction terms with
+  | nil => intro acc h _; simpa using h
+  | cons t ts ih =>
+    intro acc h ht
+    simp only [List.foldl_cons]
+    apply ih
+    · rw [axpy_length, h, ht t (by simp)]; simp
+    · intro t' h'; exact ht t' (by simp [h'])
+
+theorem comb_length (n : ℕ) (terms : List (List ℝ × ℝ)) (ht : ∀ t ∈ terms, t.1.length = n) :
+    (comb n terms).length = n := by
+  simp only [comb]
+  exact foldl_axpy_length n terms _ (by simp) ht
+
+/-- what a successful `advance` returns -/
+theorem advance_some (P : Params ℝ) (s s' : State ℝ) (adot qacc : List ℝ) (vo : Option (List ℝ)) :
+    advance P s adot qacc vo = some s' →
+    s'.time = s.time + P.h ∧ s'.qvel = axpy s.qvel qacc P.h ∧ qacc.length = s.qvel.length ∧
+    integratePos P.jtypes s.qpos (vo.getD (axpy s.qvel qacc P.h)) P.h = some s'.qpos ∧
+    (if s.act.isEmpty ∨ P.actuationDisabled then s'.act = s.act
+     else advanceAct P.actuators P.h s.act adot = some s'.act) := by
+  intro H
+  unfold advance at H
+  simp only [Option.bind_eq_bind, Option.pure_def] at H
+  split_ifs at H with h1 h2 h2
+  · simp at H
+  · simp only [Option.bind_some, Option.bind_eq_some_iff] at H
+    obtain ⟨qp, hq, hs⟩ := H
+    cases hs
+    refine ⟨rfl, rfl, not_not.mp h2, by cases vo <;> exact hq, ?_⟩
+    rw [if_pos h1]
+  · simp only [Option.bind_eq_some_iff] at H
+    obtain ⟨a, ha, H⟩ := H
+    simp at H
+  · simp only [Option.bind_eq_some_iff] at H
+    obtain ⟨a, ha, qp, hq, hs⟩ := H
+    cases hs
+    refine ⟨rfl, rfl, not_not.mp h2, by cases vo <;> exact hq, ?_⟩
+    rw [if_neg h1]; exact ha
+
+theorem allLen_iff (n : ℕ) (ls : List (List ℝ)) : allLen n ls = true ↔ ∀ l ∈ ls, l.length = n := by
+  simp [allLen, List.all_eq_true]
+
+/-- what a successful `stage` returns -/
+theorem stage_some (P : Params ℝ) (x0 x : State ℝ) (vs : List (List ℝ)) (fs : List (Deriv ℝ)) (coefs : List ℝ) :
+    stage P x0 vs fs coefs = some x →
+    (∀ l ∈ vs, l.length = x0.qvel.length) ∧ (∀ f ∈ fs, f.qacc.length = x0.qvel.length) ∧
+    (∀ f ∈ fs, f.actDot.length = x0.act.length) ∧
+    x.time = x0.time + (coefs.foldl (· + ·) 0) * P.h ∧
+    x.qvel = axpy x0.qvel (comb x0.qvel.length ((fs.map (·.qacc)).zip coefs)) P.h ∧
+    x.act = axpy x0.act (comb x0.act.length ((fs.map (·.actDot)).zip coefs)) P.h ∧
+    integratePos P.jtypes x0.qpos (comb x0.qvel.length (vs.zip coefs)) P.h = some x.qpos := by
+  intro H
+  unfold stage at H
+  simp only [] at H
+  split_ifs at H with hg
+  simp only [Option.bind_eq_bind, Option.pure_def, Option.bind_eq_some_iff] at H
+  obtain ⟨qp, hq, hs⟩ := H
+  cases hs
+  simp only [not_or, not_not, Bool.not_eq_true, ne_eq] at hg
+  obtain ⟨_, _, h3, h4, h5⟩ := hg
+  have h3' := (allLen_iff _ _).mp (by simpa using h3)
+  have h4' := (allLen_iff _ _).mp (by simpa using h4)
+  have h5' := (allLen_iff _ _).mp (by simpa using h5)
+  refine ⟨h3', ?_, ?_, ?_, rfl, rfl, hq⟩
+  · intro f hf; exact h4' _ (List.mem_map_of_mem hf)
+  · intro f hf; exact h5' _ (List.mem_map_of_mem hf)
+  · simp [real_ofInt]
+
+/-- the generated tableau over ℝ -/
+theorem rk4A_real : (RK4.A : List ℝ) = [1/2, 0, 0, 0, 1/2, 0, 0, 0, 1] := by
+  simp only [RK4.A, real_ofInt, ofSci_half]; norm_num
+theorem rk4B_real : (RK4.B : List ℝ) = [1/6, 1/3, 1/3, 1/6] := by
+  simp only [RK4.B, real_ofInt]; norm_num
+
+/-- unfolding of the modelled `mj_RungeKutta` with the generated tableau evaluated over ℝ -/
+theorem rk4_some (P : Params ℝ) (x0 : State ℝ) (f0 f1 f2 f3 : Deriv ℝ) (r : RK4Result ℝ) :
+    rk4 P x0 f0 f1 f2 f3 = some r →
+    stage P x0 [x0.qvel] [f0] [1/2] = some r.x1 ∧
+    stage P x0 [x0.qvel, r.x1.qvel] [f0, f1] [0, 1/2] = some r.x2 ∧
+    stage P x0 [x0.qvel, r.x1.qvel, r.x2.qvel] [f0, f1, f2] [0, 0, 1] = some r.x3 ∧
+    f3.qacc.length = x0.qvel.length ∧ f3.actDot.length = x0.act.length ∧
+    advance P x0
+      (comb x0.act.length [(f0.actDot, 1/6), (f1.actDot, 1/3), (f2.actDot, 1/3), (f3.actDot, 1/6)])
+      (comb x0.qvel.length [(f0.qacc, 1/6), (f1.qacc, 1/3), (f2.qacc, 1/3), (f3.qacc, 1/6)])
+      (some (comb x0.qvel.length [(x0.qvel, 1/6), (r.x1.qvel, 1/3), (r.x2.qvel, 1/3), (r.x3.qvel, 1/6)]))
+      = some r.final := by
+  intro H
+  unfold rk4 at H
+  rw [rk4A_real, rk4B_real] at H
+  simp only [Option.bind_eq_bind, Option.pure_def, Option.bind_eq_some_iff] at H
+  obtain ⟨x1, h1, x2, h2, x3, h3, H⟩ := H
+  split_ifs at H with hg
+  simp only [Option.bind_eq_some_iff] at H
+  obtain ⟨fin, hf, hs⟩ := H
+  cases hs
+  simp only [not_or, Bool.not_eq_true] at hg
+  have g1 := (allLen_iff _ _).mp (by simpa using hg.1) f3.qacc (by simp)
+  have g2 := (allLen_iff _ _).mp (by simpa using hg.2) f3.actDot (by simp)
+  exact ⟨h1, h2, h3, g1, g2, hf⟩
+
+/-- unit quaternion, |w| ≥ mjMINVAL: right-multiplication by exp(h w / 2) -/
+theorem integrateQuat_exp' (q : ℝ × ℝ × ℝ × ℝ) (w : ℝ × ℝ × ℝ) (h : ℝ) (hq : nsq4 q = 1)
+    (hw : minval ≤ Real.sqrt (nsq3 w)) :
+    integrateQuat q w h =
+      mulQuat q (Real.cos (h * Real.sqrt (nsq3 w) * (1/2)),
+        w.1 / Real.sqrt (nsq3 w) * Real.sin (h * Real.sqrt (nsq3 w) * (1/2)),
+        w.2.1 / Real.sqrt (nsq3 w) * Real.sin (h * Real.sqrt (nsq3 w) * (1/2)),
+        w.2.2 / Real.sqrt (nsq3 w) * Real.sin (h * Real.sqrt (nsq3 w) * (1/2))) := by
+  obtain ⟨q0, q1, q2, q3⟩ := q
+  obtain ⟨w0, w1, w2⟩ := w
+  simp only [nsq4, nsq3] at hq hw ⊢
+  simp only [integrateQuat, mulQuat, mju_quatIntegrate_eq]
+  rw [mju_normalize4_of_unit _ _ _ _ hq, mju_normalize3_eq, if_neg (not_lt.mpr hw)]
+  simp only [mju_axisAngle2Quat_eq]
+
+/-- unit quaternion, |w| < mjMINVAL (axis reset to x): rotation by the (tiny) angle h|w| about x -/
+theorem integrateQuat_exp_small' (q : ℝ × ℝ × ℝ × ℝ) (w : ℝ × ℝ × ℝ) (h : ℝ) (hq : nsq4 q = 1)
+    (hw : Real.sqrt (nsq3 w) < minval) :
+    integrateQuat q w h =
+      mulQuat q (Real.cos (h * Real.sqrt (nsq3 w) * (1/2)), Real.sin (h * Real.sqrt (nsq3 w) * (1/2)), 0, 0) := by
+  obtain ⟨q0, q1, q2, q3⟩ := q
+  obtain ⟨w0, w1, w2⟩ := w
+  simp only [nsq4, nsq3] at hq hw ⊢
+  simp only [integrateQuat, mulQuat, mju_quatIntegrate_eq]
+  rw [mju_normalize4_of_unit _ _ _ _ hq, mju_normalize3_eq, if_pos hw]
+  simp only [mju_axisAngle2Quat_eq, one_mul, zero_mul]
+
+/-! ### activation blocks -/
+
+theorem nextActBlock_mem (a : Actuator ℝ) (h : ℝ) (hl : a.actlimited = true) (hd : a.dyntype ≠ RK4.mjDYN_DCMOTOR)
+    (hr : a.lo ≤ a.hi) : ∀ (blk dots r : List ℝ) (k : ℕ), nextActBlock a h k blk dots = some r →
+    ∀ x ∈ r, a.lo ≤ x ∧ x ≤ a.hi := by
+  intro blk
+  induction blk with
+  | nil =>
+    intro dots r k H
+    rcases dots with _ | ⟨d, dots⟩ <;> simp [nextActBlock] at H
+    subst H; simp
+  | cons b blk ih =>
+    intro dots r k H
+    rcases dots with _ | ⟨d, dots⟩
+    · simp [nextActBlock] at H
+    · cases hr' : nextActBlock a h (k + 1) blk dots with
+      | none => simp [nextActBlock, hr'] at H
+      | some rest =>
+        simp [nextActBlock, hr'] at H
+        subst H
+        intro x hx
+        rcases List.mem_cons.mp hx with rfl | hx
+        · exact nextActivation_mem (a.slot k) h b _ hl hd hr
+        · exact ih _ _ _ hr' x hx
+
+theorem reanchorBlock_id (a : Actuator ℝ) (blk : List ℝ)
+    (hw : a.dyntype ≠ RK4.mjDYN_INTEGRATOR ∨ (wrapPeriod a ≤ 0 ∧ a.gaintype ≠ RK4.mjGAIN_SO3)) :
+    reanchorBlock a blk = some blk := by
+  unfold reanchorBlock
+  rcases hw with hw | ⟨h1, h2⟩
+  · rw [if_pos hw]
+  · have hp : ¬ ((MjNum.ofInt 0 : ℝ) < wrapPeriod a) := by
+      simp only [real_ofInt, Int.cast_zero]; exact not_lt.mpr h1
+    by_cases g1 : a.dyntype ≠ RK4.mjDYN_INTEGRATOR
+    · rw [if_pos g1]
+    · rw [if_neg g1]
+      simp only [if_neg hp, if_neg h2]
+
+/-! ### the re-anchoring applied after the clamp: a concrete witness -/
+
+/-- the directed probe of checks/c05.py: integrated-velocity servo with actrange [-1, 1] on a ball joint -/
+noncomputable def probeAct : Actuator ℝ :=
+  { dyntype := RK4.mjDYN_INTEGRATOR, gaintype := RK4.mjGAIN_FIXED, biastype := RK4.mjBIAS_AFFINE,
+    trntype := RK4.mjTRN_JOINT, actnum := 1, actlimited := true, disabled := false, lo := -1, hi := 1,
+    dynprm0 := 1, dynprm2 := 0, dynprm5 := 0, dynprm7 := 0, dynprm8 := 0, gainprm0 := 10, gainprm5 := 0,
+    biasprm1 := -10, biasprm3 := 0, biasprm4 := 0, biasprm5 := 0, refsite := -1, trnJointType := RK4.mjJNT_BALL,
+    gear0 := 1, gear1 := 0, gear2 := 0, gear3 := 0, gear4 := 0, gear5 := 0, velocity := 0, length := -3 }
+
+theorem piLit_bounds : 3 < piLit ∧ piLit < 4 := by
+  unfold piLit; constructor <;> norm_num
+
+theorem probe_period : wrapPeriod probeAct = 2 * piLit := by
+  simp only [wrapPeriod, probeAct, RK4.mjGAIN_FIXED, RK4.mjBIAS_AFFINE, RK4.mjDYN_INTEGRATOR, RK4.mjDYN_NONE,
+    RK4.mjGAIN_PID, RK4.mjTRN_SITE, RK4.mjTRN_JOINT, RK4.mjTRN_JOINTINPARENT, RK4.mjJNT_BALL, mjPI_real,
+    mju_norm3, real_beq, real_ofInt, real_sqrt]
+  norm_num
+
+theorem probe_round : mjuRound ((1 - (-3 : ℝ)) / (2 * piLit)) = 1 := by
+  have hb := piLit_bounds
+  have hx0 : (0 : ℝ) ≤ (1 - (-3 : ℝ)) / (2 * piLit) := by
+    apply div_nonneg <;> linarith
+  have hx1 : (1 - (-3 : ℝ)) / (2 * piLit) < 1 := by
+    rw [div_lt_one (by linarith)]; linarith
+  have hxh : (1 / 2 : ℝ) ≤ (1 - (-3 : ℝ)) / (2 * piLit) := by
+    rw [le_div_iff₀ (by linarith)]; linarith
+  have hfl : (Int.floor ((1 - (-3 : ℝ)) / (2 * piLit)) : ℤ) = 0 := by
+    rw [Int.floor_eq_zero_iff]; exact ⟨hx0, hx1⟩
+  have hfloor : MjNum.floor ((1 - (-3 : ℝ)) / (2 * piLit)) = ((Int.floor ((1 - (-3 : ℝ)) / (2 * piLit)) : ℤ) : ℝ) := rfl
+  simp only [mjuRound, roundC, real_ofInt, real_lt_iff, real_le_iff, ofSci_half, hfloor, hfl]
+  have h1 : ¬ ((2147483647 : ℤ) : ℝ) < (1 - (-3 : ℝ)) / (2 * piLit) := by
+    push_cast; linarith
+  have h2 : ¬ (1 - (-3 : ℝ)) / (2 * piLit) < ((-2147483648 : ℤ) : ℝ) := by
+    push_cast; linarith
+  rw [if_neg h1, if_neg h2, if_pos (by push_cast; exact hx0)]
+  push_cast
+  rw [if_pos (by linarith)]
+  norm_num
+
 end MjProof.Integrate
